@@ -406,8 +406,10 @@ struct diff_key {
 	static int cmp_diff_##_name(struct uftrace_report_node *a, struct uftrace_report_node *b,  \
 				    int column)                                                    \
 	{                                                                                          \
-		if (column != 2)                                                                   \
+		if (column == 0)                                                                   \
 			return cmp_field_##_name(a, b);                                            \
+		if (column == 1)                                                                   \
+			return cmp_field_##_name(a->pair, b->pair);                                \
                                                                                                    \
 		if (diff_policy.percent)                                                           \
 			return cmp_pcnt_##_name(a, b);                                             \
